@@ -764,10 +764,133 @@ func (c *Ctx) callSiteVisitedGuard(pk *pkgT, cf *cfgx.Func, body *ast.BlockStmt,
 		gm, gk = m, k
 		return true
 	}
-	if !cf.MustAt(call, gen, nil, nil) || gm == nil {
-		return false
+	if cf.MustAt(call, gen, nil, nil) && gm != nil && markHeldAt(info, cf, call, gm, gk) {
+		return true
 	}
-	return markHeldAt(info, cf, call, gm, gk)
+	{
+		// ... or a helper did both: `if !core.startExpanding(name) { return err }` with the
+		// helper answering true only after it found the key absent and inserted it
+		var tsMap types.Object
+		genTS := func(fa cfgx.Fact) bool {
+			e, truth := ast.Unparen(fa.Expr), fa.Truth
+			for {
+				u, isNot := e.(*ast.UnaryExpr)
+				if !isNot || u.Op != token.NOT {
+					break
+				}
+				e, truth = ast.Unparen(u.X), !truth
+			}
+			hc, ok := e.(*ast.CallExpr)
+			if !ok || !truth {
+				return false
+			}
+			if mo, ok := c.testAndSetHelper(Callee(info, hc)); ok {
+				tsMap = mo
+				return true
+			}
+			return false
+		}
+		// a release before the call (not a deferred one) ends the protection
+		kill := func(nd ast.Node) bool {
+			es, ok := nd.(*ast.ExprStmt)
+			if !ok {
+				return false
+			}
+			ce, ok := es.X.(*ast.CallExpr)
+			if !ok {
+				return false
+			}
+			deletes := func(body ast.Node, inf *types.Info) bool {
+				hit := false
+				ast.Inspect(body, func(y ast.Node) bool {
+					if dc, ok := y.(*ast.CallExpr); ok && len(dc.Args) == 2 {
+						if id, ok := dc.Fun.(*ast.Ident); ok && id.Name == "delete" {
+							if sel, ok := ast.Unparen(dc.Args[0]).(*ast.SelectorExpr); ok && tsMap != nil && inf.ObjectOf(sel.Sel) == tsMap {
+								hit = true
+							}
+						}
+					}
+					return !hit
+				})
+				return hit
+			}
+			if deletes(ce, info) {
+				return true
+			}
+			if gd := c.P.Decl(Callee(info, ce)); gd != nil {
+				return deletes(gd.Body, c.P.PkgOfDecl(gd).TypesInfo)
+			}
+			return false
+		}
+		return cf.MustAt(call, genTS, nil, kill)
+	}
+}
+
+// testAndSetHelper: h(k) bool answers true only on paths on which it found M[k] absent and
+// then inserted it (M a map field, k its parameter). Returns the map field.
+func (c *Ctx) testAndSetHelper(h *types.Func) (types.Object, bool) {
+	hd := c.P.Decl(h)
+	if hd == nil || hd.Type.Results == nil || len(hd.Type.Results.List) != 1 {
+		return nil, false
+	}
+	hpk := c.P.PkgOfDecl(hd)
+	info := hpk.TypesInfo
+	if b, ok := info.TypeOf(hd.Type.Results.List[0].Type).Underlying().(*types.Basic); !ok || b.Kind() != types.Bool {
+		return nil, false
+	}
+	params := map[types.Object]bool{}
+	for _, fl := range hd.Type.Params.List {
+		for _, nm := range fl.Names {
+			params[info.ObjectOf(nm)] = true
+		}
+	}
+	cf := c.CFG(hpk, hd.Body)
+	var field types.Object
+	good, n := true, 0
+	inspectNoLit(hd.Body, func(x ast.Node) bool {
+		ret, ok := x.(*ast.ReturnStmt)
+		if !ok || len(ret.Results) != 1 {
+			return true
+		}
+		tv, has := info.Types[ret.Results[0]]
+		if !has || tv.Value == nil {
+			good = false // a computed answer: not judged
+			return true
+		}
+		if tv.Value.ExactString() != "true" {
+			return true
+		}
+		n++
+		var gm, gk ast.Expr
+		gen := func(fa cfgx.Fact) bool {
+			if fa.Truth {
+				return false
+			}
+			m, k, ok := mapLookupOf(info, cf, fa.Expr)
+			if !ok {
+				return false
+			}
+			if id, isID := ast.Unparen(k).(*ast.Ident); !isID || !params[info.ObjectOf(id)] {
+				return false
+			}
+			gm, gk = m, k
+			return true
+		}
+		if !cf.MustAt(ret, gen, nil, nil) || gm == nil || !markHeldAt(info, cf, ret, gm, gk) {
+			good = false
+			return true
+		}
+		if sel, ok := ast.Unparen(gm).(*ast.SelectorExpr); ok {
+			field = info.ObjectOf(sel.Sel)
+		} else {
+			good = false
+		}
+		return true
+	})
+	if !good || n == 0 || field == nil {
+		return nil, false
+	}
+	return field, true
 }
 
 // markHeldAt: on every path to node at, M[k] was inserted and not deleted again
@@ -1324,20 +1447,45 @@ func (c *Ctx) checkIncludeWorklist(sc interface {
 	cf := c.CFG(pk, fd.Body)
 	stackF := c.Field("scanner", "Stack", "stack")
 	found := false
+	// the append itself, or the call of a method of the package that does it
+	growsStack := func(n ast.Node) bool {
+		switch x := n.(type) {
+		case *ast.AssignStmt:
+			return len(x.Lhs) == 1 && fieldSel(info, x.Lhs[0], stackF)
+		case *ast.ExprStmt:
+			call, ok := x.X.(*ast.CallExpr)
+			if !ok {
+				return false
+			}
+			gd := c.P.Decl(Callee(info, call))
+			if gd == nil || c.P.PkgOfDecl(gd) != pk || gd == fd {
+				return false
+			}
+			hit := false
+			ast.Inspect(gd.Body, func(y ast.Node) bool {
+				if as, ok := y.(*ast.AssignStmt); ok && len(as.Lhs) == 1 && fieldSel(info, as.Lhs[0], stackF) {
+					hit = true
+				}
+				return !hit
+			})
+			return hit
+		}
+		return false
+	}
 	ast.Inspect(fd.Body, func(n ast.Node) bool {
-		as, ok := n.(*ast.AssignStmt)
-		if !ok || len(as.Lhs) != 1 || !fieldSel(info, as.Lhs[0], stackF) {
+		as, ok := n.(ast.Stmt)
+		if !ok || !growsStack(n) {
 			return true
 		}
 		found = true
-		var gm ast.Expr
+		var gm, gk ast.Expr
 		gen := func(fa cfgx.Fact) bool {
 			if fa.Truth {
 				return false
 			}
-			m, _, ok := mapLookupOf(info, cf, fa.Expr)
+			m, k, ok := mapLookupOf(info, cf, fa.Expr)
 			if ok {
-				gm = m
+				gm, gk = m, k
 			}
 			return ok
 		}
@@ -1345,6 +1493,9 @@ func (c *Ctx) checkIncludeWorklist(sc interface {
 			sc.Holds("include-worklist:Push", c.P.Pos(as.Pos()), "the scanner stack grows only for a file that is not already on it ("+types.ExprString(gm)+"): include depth is bounded by the number of distinct files")
 			// the key identifies the file: an accessor chain, no transformation that could map two files to one key
 			_, k, _ := mapLookupOfAny(info, cf, gm)
+			if k == nil {
+				k = gk
+			}
 			if k != nil {
 				if bad := transformedKey(info, cf.Resolve(k)); bad != "" {
 					sc.Violation("include-worklist:key", c.P.Pos(k.Pos()), "the on-stack set of files is keyed by "+bad+" instead of the file name itself: two different files can share a key and a legitimate include is refused as recursion (or a real cycle is missed)")
